@@ -19,7 +19,7 @@ Open Scope Z_scope.
 Open Scope string_scope.
 
 (* ------------------------------------------------------------------ (1) the guards *)
-(* check_zero_fill_value(*args):  for i, arg in enumerate(args): <generated body> *)
+(* check_zero_fill_value( *args ):  for i, arg in enumerate(args): <generated body> *)
 Fixpoint check_zero_fill_value (args : list pyv) : res pyv :=
   match args with
   | [] => Ok VNone
@@ -211,7 +211,7 @@ Definition covers (k : guard_kind) (operands : list string) (gs : list guard) : 
 Definition zero_ctor_ok (c : ctor) : bool :=
   match c_fill c with
   | FAbsent | FOperand | FConvert | FDense => true
-  | FConst z => z =? 0
+  | FConst z => (z =? 0)%Z
   | FParam | FLocal => false
   end.
 
@@ -324,19 +324,19 @@ Definition xmul_count (f : xz) (k : Z) : xz :=
   match f with
   | Fin x => Fin (x * k)
   | XNaN => XNaN
-  | PInf => if k =? 0 then XNaN else PInf
-  | NInf => if k =? 0 then XNaN else NInf
+  | PInf => if (k =? 0)%Z then XNaN else PInf
+  | NInf => if (k =? 0)%Z then XNaN else NInf
   end.
 
 Definition xsum (l : list xz) : xz := fold_left xadd l (Fin 0).
 
 (* what the code computes for one group / what NumPy means *)
 Definition sum_group_impl (stored : list xz) (fill : xz) (n : nat) : xz :=
-  xadd (xsum stored) (xmul_count fill (Z.of_nat n - Z.of_nat (length stored))).
+  xadd (xsum stored) (xmul_count fill (Z.of_nat n - Z.of_nat (List.length stored))).
 Definition sum_group_spec (stored : list xz) (fill : xz) (n : nat) : xz :=
-  xsum (stored ++ repeat fill (n - length stored)).
+  xsum (stored ++ repeat fill (n - List.length stored)).
 
 Definition xfinite (f : xz) : bool := match f with Fin _ => true | _ => false end.
 (* domain clause of finding D23: the fill is finite, or the group is not complete *)
 Definition d23_clause (stored : list xz) (fill : xz) (n : nat) : bool :=
-  xfinite fill || (length stored <? n)%nat.
+  xfinite fill || (List.length stored <? n)%nat.
